@@ -157,6 +157,10 @@ type vcs struct {
 	manifest string // full path of the manifest on this VCS ("" in snapshot mode)
 	snapDir  string // full path of the snapshot directory ("" in manifest mode)
 
+	ctl      *ctxCtl      // scripted context of the submission (nil: the context never becomes done)
+	cancelAt *cancelPoint // where this back end makes the context done (nil: nowhere)
+	honour   bool         // a back end that refuses every operation that STARTS after the context is done
+
 	attempt int
 	head    map[string][]byte // replaced, never mutated, on every commit
 	rev     int
@@ -232,6 +236,10 @@ func (v *vcs) writerCommit() {
 func (v *vcs) GetChangeOps(context.Context) (endorse.ChangeOps, error) {
 	v.attempt++
 	o := v.cur()
+	if err := v.ctxGate("get", 1, "GetChangeOps"); err != nil {
+		v.rec.add(event{VCS: v.id, Ev: "get", Err: err.Error(), Class: clsPermanent, Attempt: v.attempt})
+		return nil, err
+	}
 	if o.Writer == wrBefore {
 		v.writerCommit()
 	}
@@ -283,6 +291,11 @@ type workspace struct {
 // later attempt is reported by the oracle, not by injected errors).
 func (w *workspace) fault(kind, op string) error {
 	w.count[kind]++
+	if w.v.attempt == w.id {
+		if err := w.v.ctxGate(kind, w.count[kind], op); err != nil {
+			return err
+		}
+	}
 	if w.destroyed > 0 {
 		return &vcsErr{VCS: w.v.id, Attempt: w.v.attempt, Op: op + " on destroyed workspace", Class: clsPermanent}
 	}
@@ -394,4 +407,91 @@ func (w *workspace) TryCommit(context.Context) (any, error) {
 	id := fmt.Sprintf("vcs%d@r%d", w.v.id, w.v.rev)
 	w.v.rec.add(event{VCS: w.v.id, Ev: "commit", WS: w.id, Commit: id, Attempt: w.v.attempt})
 	return id, nil
+}
+
+// ---- scripted context ----
+
+// ctxCtl is the switch of a scripted context: the back-end double flips it at a scripted
+// operation, which models a cancellation (or a deadline passing) that arrives while that
+// operation is in flight. No wall clock is involved.
+type ctxCtl struct {
+	mu       sync.Mutex
+	done     chan struct{}
+	fired    bool
+	deadline bool // flavour: context.DeadlineExceeded instead of context.Canceled
+}
+
+func newCtl(deadline bool) *ctxCtl { return &ctxCtl{done: make(chan struct{}), deadline: deadline} }
+
+func (c *ctxCtl) fire() {
+	c.mu.Lock()
+	if !c.fired {
+		c.fired = true
+		close(c.done)
+	}
+	c.mu.Unlock()
+}
+
+func (c *ctxCtl) err() error {
+	c.mu.Lock()
+	defer c.mu.Unlock()
+	if !c.fired {
+		return nil
+	}
+	if c.deadline {
+		return context.DeadlineExceeded
+	}
+	return context.Canceled
+}
+
+// scriptedCtx is a context.Context whose Done/Err are driven by a ctxCtl.
+type scriptedCtx struct {
+	context.Context
+	c *ctxCtl
+}
+
+func (s scriptedCtx) Done() <-chan struct{} { return s.c.done }
+func (s scriptedCtx) Err() error            { return s.c.err() }
+func (s scriptedCtx) Deadline() (time.Time, bool) {
+	if s.c.deadline {
+		return time.Date(2100, 1, 1, 0, 0, 0, 0, time.UTC), true
+	}
+	return time.Time{}, false
+}
+
+// cancelPoint says during which operation the context becomes done: the n-th call of kind in
+// attempt Attempt of back end VCS ("get" of attempt 1 = before the first attempt's workspace,
+// "get" of a later attempt = between attempts). Attempt 0 = already done when the submission is called.
+type cancelPoint struct {
+	VCS     int
+	Attempt int
+	Kind    string
+	Nth     int
+}
+
+func (p *cancelPoint) String() string {
+	if p.Attempt == 0 {
+		return "before-the-call"
+	}
+	return fmt.Sprintf("vcs%d/attempt%d/%s#%d", p.VCS, p.Attempt, p.Kind, p.Nth)
+}
+
+// ctxGate is called at the start of every back-end operation of the current attempt. A
+// context-honouring back end refuses operations that start after the context is done; then
+// the scripted cancellation (if it is due at this operation) fires and the operation itself
+// proceeds as scripted (the cancellation arrived while it was in flight).
+func (v *vcs) ctxGate(kind string, nth int, op string) error {
+	if v.ctl == nil {
+		return nil
+	}
+	if v.honour {
+		if cerr := v.ctl.err(); cerr != nil {
+			return fmt.Errorf("%w: %w", &vcsErr{VCS: v.id, Attempt: v.attempt, Op: op + " refused, context is done", Class: clsPermanent}, cerr)
+		}
+	}
+	if p := v.cancelAt; p != nil && p.Attempt == v.attempt && p.Kind == kind && p.Nth == nth && v.ctl.err() == nil {
+		v.ctl.fire()
+		v.rec.add(event{VCS: v.id, Ev: "ctx-done", Path: fmt.Sprintf("during %s#%d", kind, nth), Attempt: v.attempt})
+	}
+	return nil
 }
